@@ -87,6 +87,13 @@ def main():
            "build, `meson test` green, demonstration fails; reverted, demonstration passes) and is kept under `seeded/<id>-<n>/` (patch.diff, demo, meta.json with the",
            "recorded verdicts). `tools/seedtest.py <dir>` applies a change to `/repo`, runs the quick check of its property and undoes it. 'oracle (failing input)' means",
            "the check printed a VIOLATION with a concrete replay; 'correspondence' / 'proof obligation' mean a VIOLATION … no-failing-input-found.", "",
+           "Four rounds of twenty seeders (three changes per property and round, the second round run in two halves; later rounds were told only in general terms what had been done before and",
+           "were steered towards call sequences, option combinations, tools and error paths). %d changes in all. About one change in five slipped through the quick" % len(rows),
+           "check of its property at first (%d, plus %d caught only as a model/code disagreement); each miss was turned into a generator, oracle or model" % (sum('missed at first' in v for v in STRENGTHENED.values()), sum('first caught only' in v for v in STRENGTHENED.values())),
+           "extension (column 'note'), three of them into new theorems (C07 pin stickiness, C05/C17 sessions, C02 request API), and two side remarks of seeders",
+           "about the UNCHANGED tree turned out to be genuine defects (dd3b01f, fc042ff). A handful are outside what the named property's check explores and are",
+           "caught by the check of the property they really break (noted). `tools/seedcorpus.py` re-runs the whole corpus in parallel scratch worktrees; the",
+           "last full run after the final changes is recorded in each meta.json under `rerun`.", "",
            "| seed | change | verdict of the quick check | note |", "|---|---|---|---|"] + rows + [""]
     p = os.path.join(VERIF, "DESIGN.md")
     s = open(p).read()
